@@ -320,4 +320,9 @@ def r7_clone(F, R):
     R.floor(4)
 
 
-RULES = [("R1", r1, _LIB), ("R2", r2, _LIB), ("R3", r3, _LIB), ("R4", r4, _LIB), ("R5", r5, _LIB), ("R6", r6, ["zoo:default"]), ("R7", r7_clone, _LIB)]
+def r8_setters(F, R):
+    """`given` / `when` / `then` register under the like-named keyword: runner and Cucumber delegate to the like-named method of the step collection / runner with regex and step."""
+    roles.check_all_builder_setters(F, R, only=r"^(given|when|then|steps)$", floor=7)
+
+
+RULES = [("R1", r1, _LIB), ("R2", r2, _LIB), ("R3", r3, _LIB), ("R4", r4, _LIB), ("R5", r5, _LIB), ("R6", r6, ["zoo:default"]), ("R7", r7_clone, _LIB), ("R8", r8_setters, _LIB)]
